@@ -668,6 +668,8 @@ func TestVerif_C14(t *testing.T) {
 	r.Assume("handlers always read the whole request; a handler answering with status > 299 or a bodyless status reads the request first (the Transport stops uploading after such a status by design); requests with trailers always have a body; header sets stay within the advertised MAX_HEADER_LIST_SIZE (checked on the wire: an exchange whose decoded list is larger is skipped and counted)")
 	r.Assume("a hang is decided without a deadline inside the bubble (3 virtual seconds of total quiescence) and by 90 s without any byte or step in real time")
 
+	r.Note("deviations from DESIGN §3 C14: (1) the tee feeds a self-contained wire shadow in the C14 files (frame size, stream/connection windows with SETTINGS binding at the ACK, HPACK decodability and table size, lower-case names, pseudo-header order, connection-specific fields) instead of the C08-C10 session objects, which are tied to scripted peers; (2) inside a bubble the pipe is unbounded, because the Transport holds its write mutex inside conn.Write and a mutex waiter is not durably blocked, so one stalled reader would freeze synctest.Wait and the virtual clock; bounded capacities (64 B..1 MiB) are used in real time; (3) header table size 0 and stream windows 0 cannot be configured (0 selects the default): 1/31 and 1 are used; (4) every body is bounded by window x frame budget, and the thorough tier is not 50x the quick tier: under the race detector a frame costs about 0.5 ms (the server starts a goroutine per frame written), so the thorough tier runs ~500 connections with larger bodies under -race and the quick tier ~700 connections without it; (5) bodies are compared byte for byte against a position-addressable generator (stronger than a rolling hash)")
+	r.Note("observed but outside the property: for HEAD requests the handler's Write/Flush can return io.ErrShortWrite / a stream-closed error once the header has gone out (counted as handler_write_errors_on_bodyless_responses); the client's view is unaffected")
 	testHookOnPanicMu.Lock()
 	oldHook := testHookOnPanic
 	sessMu := &v14PanicReg
